@@ -23,11 +23,24 @@ SEQS = {
     "E_2004":   "ACGTTCGTTAGCCGATGGCTAGGCTTTACGGATCCATTTACGGCATCCAT",
     "F_2004":   "ACGTTCGTTAGCCGTTGGCTAGGCTTTACGGATCCATTTACGGCTTCCAT",
 }
+# the same taxa with richer content, for the starting values DERIVED from the alignment: all six substitution types occur,
+# each with its own pair count (AC 32, AG 26, AT 7, CG 9, CT 47, GT 16 over all 15 pairs), four distinct frequencies; the
+# FASTA order is neither the tree's nor the sorted one
+SEQS_RICH = {
+    "D_2003":   "GGCACTGACCTCAGGACTCTGGGGCACGTTCGAGCAGACTACGAAGACATGCCACTACGT",
+    "A_2000":   "GGCACCGACCTCATGATTGTAGGGCACGTTCGAGCAGAAGACGAAGACATGCTACTACGC",
+    "F_2004":   "GGCACCGACCTCAGGACTCTGGGGCATGCTCGAGCAGACTACGCAAACATGCCACTACGC",
+    "B_2001":   "GGCACTGATCTCAGGATTATGGGGCACGTTCGAGCAGACAACGAAGACATGCAACTACGA",
+    "E_2004":   "GGCACCGACCTCAGGACTCTGGGGCACGTTCGACCAGACTACGGAAACATGCCAATACGC",
+    "C_2002.5": "GGCACTGATCTCAGGATTATGGAGCACGTTCGAGCAGACGATGAAGACATGCAACTACTA",
+}
+
 ROOTED = "((((E_2004:1,F_2004:1):1,D_2003:1):3,(C_2002.5:2,B_2001:0.5):1.5):1,A_2000:2);"
 # same topology, branch lengths in substitutions (about 0.01 per year, deliberately not clock-like): root-to-tip regression
 ROOTED_SUBST = ("((((E_2004:0.011,F_2004:0.0095):0.0105,D_2003:0.0088):0.031,(C_2002.5:0.0215,B_2001:0.0042):0.0148):0.0112,"
                 "A_2000:0.0192);")
-UNROOTED = "(A_2000:0.1,B_2001:0.2,(C_2002.5:0.1,(D_2003:0.1,(E_2004:0.15,F_2004:0.05):0.1):0.1):0.1);"
+# every branch has its own length (dyadic-free but distinct): a value attached to another branch / taxon shows
+UNROOTED = "(A_2000:0.1,B_2001:0.2,(C_2002.5:0.12,(D_2003:0.08,(E_2004:0.15,F_2004:0.05):0.07):0.11):0.09);"
 
 YMD = {"A_2000": "2000-01-01", "B_2001": "2001-01-01", "C_2002.5": "2002-07-02", "D_2003": "2003-01-01",
        "E_2004": "2004-01-01", "F_2004": "2004-01-01"}
@@ -39,6 +52,7 @@ def data_dir() -> Path:
     if "d" not in _DATA:
         d = Path(tempfile.mkdtemp(prefix="c19-data-"))
         (d / "aln.fa").write_text("".join(f">{k}\n{v}\n" for k, v in SEQS.items()))
+        (d / "aln_rich.fa").write_text("".join(f">{k}\n{v}\n" for k, v in SEQS_RICH.items()))
         (d / "rooted.nwk").write_text(ROOTED + "\n")
         (d / "rooted_subst.nwk").write_text(ROOTED_SUBST + "\n")
         # the same data with sampling dates given three other ways
